@@ -128,15 +128,23 @@ def main() -> int:
         if only:
             sids = [s for s in sids if s in only]
 
+        import threading
+
+        lock = threading.Lock()
+        path = os.path.join(SEEDED, "MATRIX.json")
+
         def one(sid):
             patch = os.path.join(SEEDED, sid, "patch.diff")
-            d = scratch(patch)
+            try:
+                d = scratch(patch)
+            except subprocess.CalledProcessError:
+                print(sid, "PATCH DOES NOT APPLY", flush=True)
+                return sid, {"error": "patch does not apply"}
             row = {}
             try:
                 for p in checks:
                     e = dict(os.environ)
                     e["VERIF_REPO"] = d + "/r"
-                    e["VERIF_BUDGET_S"] = "25"
                     try:
                         cp = subprocess.run([os.path.join(VERIF, "check"), p, "--no-evidence"], cwd=VERIF, env=e, capture_output=True, text=True, timeout=900)
                         row[p] = cp.returncode
@@ -145,16 +153,16 @@ def main() -> int:
             finally:
                 drop(d)
             print(sid, {k: v for k, v in row.items() if v != 0}, flush=True)
+            with lock:
+                old = json.load(open(path)) if os.path.exists(path) else {}
+                old[sid] = row
+                json.dump(old, open(path, "w"), indent=1, sort_keys=True)
             return sid, row
 
         out = {}
         with cf.ThreadPoolExecutor(max_workers=8) as ex:
             for sid, row in ex.map(one, sids):
                 out[sid] = row
-        path = os.path.join(SEEDED, "MATRIX.json")
-        old = json.load(open(path)) if os.path.exists(path) else {}
-        old.update(out)
-        json.dump(old, open(path, "w"), indent=1, sort_keys=True)
         return 0
     if a[0] == "runall":
         extra = a[1:]
